@@ -11,6 +11,7 @@ mod cmd;
 
 mod rng;
 mod apply_engine;
+mod dist_engine;
 
 use std::io::Write;
 
@@ -33,6 +34,10 @@ fn main() {
     match args[1].as_str() {
         "apply" => apply_engine::run(&mut out, seed, n, &opts),
         "apply-replay" => apply_engine::replay(&mut out, &opts),
+        "dist" => dist_engine::run(&mut out, seed, n, &opts),
+        "dist-replay" => dist_engine::replay(&mut out, &opts),
+        "fuzzpair" => apply_engine::run_pairs(&mut out, seed, n, &opts),
+        "fuzzpair-replay" => apply_engine::replay_pairs(&mut out, &opts),
         other => { eprintln!("unknown engine {}", other); std::process::exit(2); }
     }
     out.flush().unwrap();
